@@ -512,15 +512,34 @@ def fixed_sampler_cases():
                       "space_tag": "witness:non-aligned-0.3", "bs": 3, "seed": seed, "budget": 0, "opts": {},
                       "hist_idx": [[3], [3], [2], [0]], "losses": [0.1, 0.1, 0.3, 0.4], "ncalls": 2,
                       "append": [False, True], "new_losses": [[0.05, 0.06, 0.07]] * 2})
-    # FINDING probe (harness/findings.d/C03.json): a surrogate sampler whose candidate pool is smaller than its batch size
-    # returns `pool` rows instead of `batch_size` rows (surrogate.py:128 `candidates[sorting_indices][:batch_size]`, no
-    # validation of the option in the constructor)
+    # boundary of the admissible options: a candidate pool exactly as large as the batch (a smaller pool used to return
+    # `pool` rows instead of `batch_size` rows; since the repair b8551a2 the constructor rejects it - see pool_validation)
     for kind in ("xgb", "rf", "gp"):
         cases.append({"kind": "sampler", "cls": kind, "bounds": [[0.0], [1.0]], "precision": [0.1],
-                      "space_tag": "probe:pool<batch", "bs": 4, "seed": 1, "budget": 0, "opts": {"pool": 2},
+                      "space_tag": "probe:pool=batch", "bs": 4, "seed": 1, "budget": 0, "opts": {"pool": 4},
                       "hist_idx": [[0], [5], [7], [2], [9]], "losses": [1.0, 2.0, 3.0, 0.5, 0.7], "ncalls": 1,
                       "append": [False], "new_losses": [[0.1, 0.2, 0.3, 0.4]]})
     return cases
+
+
+def pool_validation(chk):
+    """candidate_pool_size < batch_size is not an admissible option: it must be rejected, never silently shorten a batch."""
+    from black_it.samplers.gaussian_process import GaussianProcessSampler
+    from black_it.samplers.random_forest import RandomForestSampler
+    from black_it.samplers.xgboost import XGBoostSampler
+
+    n = 0
+    for cls in (RandomForestSampler, XGBoostSampler, GaussianProcessSampler):
+        for bs, pool in ((4, 2), (2, 1), (3, 0)):
+            n += 1
+            try:
+                cls(batch_size=bs, candidate_pool_size=pool)
+            except ValueError:
+                continue
+            chk.violation({"kind": "oracle", "clause": "shape", "option": "candidate_pool_size<batch_size"},
+                          {"failed": "oracle:shape", "detail": f"{cls.__name__}(batch_size={bs}, candidate_pool_size={pool}) is accepted and "
+                           "returns fewer rows than batch_size", "case": {"kind": "pool_validation", "cls": cls.__name__, "bs": bs, "pool": pool}})
+    return n
 
 
 def gen_calibration(rng, quick):
@@ -605,6 +624,7 @@ def run(chk, replay=None):
     os.environ["OMP_NUM_THREADS"] = "1"
     os.environ["LOKY_MAX_CPU_COUNT"] = "1"
     chk.proof_gate()
+    n_poolval = pool_validation(chk)
     quick = chk.tier == "quick"
     r = chk.rng
     if replay:
